@@ -38,6 +38,8 @@ TASK: produce THREE different, independent source changes (patch1, patch2, patch
 
 For each patch write a demonstration: a small standalone Python program (demoN.py, run as `cd {wt} && PYTHONPATH={wt}/src:{wt}/tests /venv/bin/python {outd}/demoN.py`) that exits 0 and prints PASS on the unmodified tree and exits 1 and prints FAIL (with a short explanation of the observed wrong behaviour) when patch N is applied. The demo should exercise the real code (e.g. TriggerHandler(config, push).trace_call installed via sys.settrace, ConfigService, TaskHandler, BoundedAttributes, Deep, ... whatever fits) - look at tests/unit_tests and tests/it_tests for how the pieces are constructed. No network is available (127.0.0.1 loopback works; if your demo needs a gRPC server use an ephemeral port, not 43315). If a demo needs temporary files, create them with tempfile and delete them at the end.
 
+ALSO (separately from the three patches): if, while exploring, you notice behaviour of the UNMODIFIED tree that already violates the property as stated (a genuine defect, not one of your patches), describe it in notes.md under a heading '## Observations about the unmodified tree' and add a minimal reproduction script obsK.py (exit 1 and print what is wrong on the unmodified tree). Only report what you actually reproduced. Typical places nobody has looked at closely yet: the plugins shipped with the project (src/deep/api/plugin: python, otel, prometheus metrics, otel metrics), process-global side effects of agent code that runs during trace events (module state, logging, threading, warnings, gc, sys), conversions in src/deep/push and src/deep/grpc, src/deep/utils.py, src/deep/api/resource, src/deep/config.
+
 DELIVERABLES in {outd}/: patch1.diff, patch2.diff, patch3.diff (output of `git -C {wt} diff` with only that patch applied; each must apply cleanly with `git apply` to the unmodified tree), demo1.py, demo2.py, demo3.py, and notes.md saying for each patch (under a heading '## patchN'): what it changes, why the existing tests do not notice, what exactly is needed for it to manifest ('Needed to manifest: ...'), and the commands you ran with their results. Verify everything yourself before finishing: apply patch N -> tests still pass -> demoN fails; revert -> demoN passes. Python is /venv/bin/python (3.12). Keep each patch small (a few lines).
 """.format(wt=wt, outd=outd, pid=pid, title=p['title'], statement=p['statement'], quant=p['quantifier']['text'],
            files=', '.join(p['anchors']['files']), used='\n'.join(used))
